@@ -406,7 +406,7 @@ def event(fn, args, site=None, feat=None, timeout=30):
 def intsyms(x):
     """The same call over an alphabet of integer token ids: a -> 0, b -> 1 (0 is falsy, like epsilon '')."""
     if isinstance(x, str):
-        return {"a": "<0>", "b": "<1>"}.get(x, x)
+        return {"a": "<0>", "b": "<3>"}.get(x, x)
     if isinstance(x, list):
         return [intsyms(y) for y in x]
     if isinstance(x, dict):
